@@ -8,7 +8,7 @@ d=$(mktemp -d /var/tmp/verif-seed-XXXXXX)
 git -C /repo worktree add -q --detach "$d/wt" HEAD || exit 2
 trap 'git -C /repo worktree remove --force "$d/wt" >/dev/null 2>&1; rm -rf "$d"' EXIT
 ( cd "$dir/demo" && bash ./run.sh "$d/wt" > "$d/demo-clean.log" 2>&1 ); clean=$?
-if ! git -C "$d/wt" apply "$dir/patch.diff"; then echo "RESULT $dir: patch does not apply"; exit 1; fi
+if ! git -C "$d/wt" apply "$dir/patch.diff" 2>/dev/null && ! git -C "$d/wt" apply --3way "$dir/patch.diff"; then echo "RESULT $dir: patch does not apply"; exit 1; fi
 ( cd "$d/wt" && go build ./... && go test -vet=off -count=1 ./... > "$d/base.log" 2>&1 ); base=$?
 ( cd "$dir/demo" && bash ./run.sh "$d/wt" > "$d/demo-mut.log" 2>&1 ); mut=$?
 echo "RESULT $dir: baseline_with_change=$base demo_clean=$clean demo_with_change=$mut"
